@@ -15,7 +15,13 @@ type Val struct {
 	LV    *LValue  // pointer known only as an lvalue
 	Tuple []Val    // multi-value
 	Clo   *Closure // known closure
+	Alts  []CloAlt // function value merged from several known closures (condition = incoming edge)
 	Bad   string   // non-empty: value not modelled (reason)
+}
+
+type CloAlt struct {
+	Cond string
+	Clo  *Closure
 }
 
 type Closure struct {
@@ -175,8 +181,12 @@ func (ft *FT) force(v string) string {
 	if t, ok := ft.forced[v]; ok {
 		return t
 	}
+	// heap terms are closed: name them even when forced inside a quantifier body
+	saved := ft.inQuant
+	ft.inQuant = 0
 	t := ft.thunks[v]()
 	t = ft.force(t)
+	ft.inQuant = saved
 	ft.forced[v] = t
 	return t
 }
